@@ -6,7 +6,9 @@ import re
 import b09text as T
 from common import hexs, rng, run_driver, unhex
 
-NUM_OPERANDS = ["S{k}", "S{k}+1", "(S{k})", "-S{k}", "{k}", "&HF{k}", "S{k}*2-1", "QQ(S{k})", "ABS(S{k})", "S{k} AND 3", "NOT S{k}"]
+NUM_OPERANDS = ["S{k}", "S{k}+1", "(S{k})", "-S{k}", "{k}", "&HF{k}", "S{k}*2-1", "QQ(S{k})", "ABS(S{k})", "S{k} AND 3", "NOT S{k}",
+                "INT(S{k})", "BUTTON(S{k})", "INT(S{k}/2)"]
+WRAPPED = {"INT": "ecb_int", "BUTTON": "ecb_button"}
 STR_OPERANDS = ["T{k}$", "\"lit{k}\"", "T{k}$+\"x\"", "LEFT$(T{k}$,2)", "CHR$(6{k})"]
 
 
@@ -42,9 +44,15 @@ def cases(tier):
         nstr = len(set(re.findall(r"\$(\d)", f["template"])))
         variants = [0] if tier != "thorough" else range(len(NUM_OPERANDS))
         picks = [(0, 0)] + [(r.randrange(len(NUM_OPERANDS)), r.randrange(len(STR_OPERANDS))) for _ in range(3 if tier != "thorough" else 12)]
+        combos = []
         for a, b in picks:
             nums = [NUM_OPERANDS[(a + k) % len(NUM_OPERANDS) if a else 0].format(k=k + 1) for k in range(nnum)]
             strs = [STR_OPERANDS[(b + k) % len(STR_OPERANDS) if b else 0].format(k=k + 1) for k in range(nstr)]
+            combos.append((a, b, nums, strs))
+        for p in range(nnum):        # every numeric operand position once with an operand that needs a temporary
+            nums = [("INT(S{k})" if k == p else "S{k}").format(k=k + 1) for k in range(nnum)]
+            combos.append((1, 1, nums, [STR_OPERANDS[0].format(k=k + 1) for k in range(nstr)]))
+        for a, b, nums, strs in combos:
             body = instantiate(f["template"], nums, strs)
             # layouts: as written; blanks after commas and a blank + another statement behind it; trailing blank
             layouts = [body, body.replace(",", ", ") + " : STOP", body + " "]
@@ -77,14 +85,31 @@ def find_call(out, proc):
     return None
 
 
+def operand_texts(srcs):
+    """expected BASIC09 text of each operand; an operand that is a convertible function is a
+    numeric temporary (numbered in operand order) filled by its wrapper call beforehand"""
+    ops, wrappers, n = [], [], 0
+    for x in srcs:
+        m = re.match(r"^(INT|BUTTON)\((.*)\)$", x)
+        if m:
+            n += 1
+            ops.append(f"tmp_{n}")
+            wrappers.append(f"RUN {WRAPPED[m.group(1)]}({operand_text(m.group(2))}, tmp_{n})")
+        else:
+            ops.append(operand_text(x))
+    return ops, wrappers
+
+
 def run(tier):
     from coco.b09.compiler import convert
     cs = cases(tier)
     reqs, impl = [], []
     for c in cs:
+        c["wrappers"] = []
         try:
-            ops = [operand_text(x) for x in c["nums"] + c["strs"]]
+            ops, c["wrappers"] = operand_texts(c["nums"] + c["strs"])
             out = convert(c["text"], add_standard_prefix=False, add_suffix=False)
+            c["out"] = out
             call = find_call(out, c["form"]["proc"])
             impl.append("ok " + hexs((call or "<no call> " + out).encode()))
         except Exception as e:  # noqa: BLE001
@@ -105,12 +130,20 @@ def oracle(case, impl):
     got = unhex(impl[3:]).decode()
     if got != case["expect"]:
         return f"{case['text']!r}: runtime call is `{got[:150]}`, the statement's operands and defaults require `{case['expect'][:150]}`"
+    out = case.get("out", "")
+    pos = out.lower().find(got.lower())
+    for w in case.get("wrappers", []):
+        k = out.lower().find(w.lower())
+        if k < 0 or (pos >= 0 and k > pos):
+            return f"{case['text']!r}: the operand's wrapper call `{w}` does not precede `{got[:100]}` | {out.strip()[:200]}"
     return None
 
 
 def classify(case, impl, why):
     if case["kind"] == "joystk":
         return "joystk-arity"
+    if re.search(r"(?i)run ecb_h(circle|arc)\(.*RUN ecb_\w+\(.*\\ ", why):
+        return "hoisted-call-captured-by-default-colour"
     if case["kind"] in ("hscreen-n", "hcls-n", "cls-n") and re.match(r"^10 (HSCREEN|HCLS|CLS) (-|NOT )", case["text"]):
         return "signed-operand-replaced-by-default"
     return None
